@@ -513,7 +513,8 @@ pub fn main() {
                 // sequences of C07 with `fincrash`): the start-up reads afterwards
                 let mut f = c07::run(&opts);
                 f.violations.retain(|v| v.signature.starts_with("C08|"));
-                f.disagreements.clear();
+                // of the correspondence only the Meta stream (store writes of the finalization)
+                f.disagreements.retain(|d| d.op.starts_with("meta:"));
                 r.merge(f);
             }
             r
